@@ -251,7 +251,10 @@ def render(shape) -> Rendered:
                 if bi is not None:
                     address += bi.size + blk.get("gap", 0)
                 addr = address if shape.get("addresses", True) else None
-                bi = gtirb.ByteInterval(contents=b"", address=addr)
+                # `lead`: the interval starts with bytes that no block covers
+                lead = blk.get("lead", 0)
+                bi = gtirb.ByteInterval(contents=b"\xcc" * lead, address=addr)
+                bi.size = lead
                 bi.section = s
                 r.intervals[si].append(bi)
             data = b""
@@ -321,8 +324,10 @@ def render(shape) -> Rendered:
                     u, set(entries), set(d["blocks"]), [name_sym]
                 )
             )
-    elif "no_fn_tables" in shape:
-        pass
+    if shape.get("drop_fn_tables") and not fns:
+        # a module that carries no function aux data at all
+        for name in ("functionBlocks", "functionEntries", "functionNames"):
+            m.aux_data.pop(name, None)
 
     # annotations.  Aux data is unordered: the order in which entries are inserted
     # into the tables varies with the shape (ascending / descending), because
